@@ -477,8 +477,19 @@ func (o c16OracleArgs) toArgs(discard bool) c16Args {
 		}
 		s.LabelFiles = append(s.LabelFiles, l.Path)
 	}
-	// a sibling service with its own files, environment and labels over the same keys: nothing of it may show up in `s`
+	// a sibling service with its own files, environment and labels over the same keys: nothing of it may show up in `s`.
+	// After its own file (which defines every key differently) it lists **the same env / label files as `s`**, so that a
+	// file shared by two services is read in two different contexts: its cross-references must be resolved per service
+	// (`project_env_ok`: no state shared between services), whichever service Go's map range visits first.
 	sib := c16Service{Name: "sibling", EnvFiles: []c16EnvFile{{Path: "sibling.env", Required: true}}, LabelFiles: []string{"sibling.lbl"}}
+	for _, l := range o.EnvLayers {
+		sib.EnvFiles = append(sib.EnvFiles, c16EnvFile{Path: l.listed(), Required: false})
+	}
+	for _, l := range o.LabelLayers {
+		if l.Present {
+			sib.LabelFiles = append(sib.LabelFiles, l.Path)
+		}
+	}
 	var sl []c16Line
 	for _, k := range append(append([]string{}, o.Keys...), "SIBLING") {
 		sl = append(sl, c16Assign(k, c16Lit("leak."+k)))
